@@ -190,7 +190,7 @@ pub fn verify(t: &TermState, cfg: &zvt_feig_terminal::config::Config) -> Vec<Str
 
 /// When an operation returns, the client must not still hold a connection on which a fault
 /// occurred during that operation (abandoning is part of handling the failure, not of the next call).
-fn held_after_fault(t: &TermState, op: &str, out: &mut Vec<String>) {
+pub fn held_after_fault(t: &TermState, op: &str, out: &mut Vec<String>) {
     for (c, evs) in t.conns.iter().enumerate() {
         let fault = evs.iter().find_map(|e| match e {
             ConnEv::Sent(l) if l.starts_with("fault:") => Some(l.clone()),
